@@ -82,7 +82,7 @@ CHECKS = {
          "Trusts go/parser, this checker's AST matcher, go/ssa, the GOROOT source of the default toolchain as reference, the reviewed divergent list (printed in evidence).",
          "DESIGN.md §4 C14"),
  "C03": ("range proving on SSA: linear obligations over symbolic atoms decided by Fourier-Motzkin entailment from dominating guards, SSA definitions, loop induction, reviewed post-/pre-condition tables and translated callee success facts; loop-shape and recursion checks; unchecked-read detection; nil-pointer-result/verdict agreement between scope functions and their dereferencing callers; constructor-literal completeness for embedded structs whose zero value holds nil interfaces",
-         "Sound static analysis of a structural sufficient condition for 'no panic, termination, allocation proportional to input' inside pat-go code: every slice (hi <= len, not cap), index, make (bounded by a constant or an input length), non-constant division, slice-to-array conversion and callee precondition in every pat-go function reachable from the 36 peer-bytes entry points is proved (obligation count in the evidence file; thorough repeats for 386 and arm64, where int is 32 bits); every cryptobyte read's result is used; all 15 loops match terminating shapes; no recursion; explicit panics are documented own-key preconditions; the ECDSA core is behind its range checks; every composite literal that builds a module struct sets each embedded-by-value struct field whose zero value holds nil interfaces, if that field is read anywhere; a scope function returning a pointer with a verdict returns nil only on failure returns when a caller dereferences it behind the verdict check alone. Does not cover panics/allocation inside dependencies on well-typed input, nil caller pointers, or machine-word overflow of length arithmetic.",
+         "Sound static analysis of a structural sufficient condition for 'no panic, termination, allocation proportional to input' inside pat-go code: every slice (hi <= len, not cap), index, make (bounded by a constant or an input length), non-constant division, slice-to-array conversion and callee precondition in every pat-go function reachable from the 36 peer-bytes entry points is proved (obligation count in the evidence file; thorough repeats for 386 and arm64, where int is 32 bits); every cryptobyte read's result is used; all 15 loops match terminating shapes; no recursion; explicit panics are documented own-key preconditions; the ECDSA core is behind its range checks; every composite literal that builds a module struct sets each embedded-by-value struct field whose zero value holds nil interfaces, if that field is read anywhere; a scope function returning a pointer with a verdict, or a non-error interface, returns nil only on failure returns when a caller dereferences it (field, load, method call, unchecked assertion) without a nil comparison. Does not cover panics/allocation inside dependencies on well-typed input, nil caller pointers, or machine-word overflow of length arithmetic.",
          "Trusts go/ssa, ranges.go (Fourier-Motzkin over rationals), the reviewed post-condition/precondition/positive-getter tables (printed in evidence), C14 identity for matched arithmetic functions; dependencies do not panic on well-typed arguments.",
          "DESIGN.md §4 C03"),
 }
